@@ -1269,7 +1269,7 @@ func parseEnumTypeDefinition(parser *Parser) (ast.Node, error) {
 	}
 	iEnumValueDefs, err := reverse(parser,
 		lexer.BRACE_L, parseEnumValueDefinition, lexer.BRACE_R,
-		false,
+		true,
 	)
 	if err != nil {
 		return nil, err
@@ -1340,7 +1340,7 @@ func parseInputObjectTypeDefinition(parser *Parser) (ast.Node, error) {
 	}
 	iInputValueDefinitions, err := reverse(parser,
 		lexer.BRACE_L, parseInputValueDef, lexer.BRACE_R,
-		false,
+		true,
 	)
 	if err != nil {
 		return nil, err
